@@ -22,12 +22,12 @@ CHECKS = {
             "DESIGN.md §4 C18"),
     "C07": ("fault_enumeration", E1,
             "enumeration of (base state x transaction body x failure kind x failure position x route) on the real Db.Update/Batch path with storage-write fault points in bbolt and joined goroutines",
-            "From every base state of a short kitchen-sink exploration (quick: depth <= 1 for all bodies, depth 2 for the bodies made of one delete), every single operation and all pairs (thorough: sampled triples) over a core alphabet are run with every failure kind at every position: caller error before each operation and after the last, operation rejected by the reference model (duplicate, missing target, restrict, unusable key), constraint veto for each of 6 stores x 3 change types, a child-store strategy refusing an update or delete that arrives through the parent (each child store), a failing pre-commit action alone / before / after / between succeeding ones / registering further actions / registered on the context before the call, and storage write k of N failing for EVERY k (fault points inserted into bbolt's write methods by the overlay); through Db.Update, nested Db.Update and Db.Batch; operations refused by input validation (blank id, wrong entity type, nil entity) are part of the alphabet. The failing store call and the transaction must return an error, the database must be byte-identical, and no listener, post-commit hook, commit action or tx-complete listener may run (all library goroutines are joined, no sleeps).",
+            "From every base state of a short kitchen-sink exploration (quick: depth <= 1 for all bodies, depth 2 for the bodies made of one delete), every single operation and all pairs (thorough: sampled triples) over a core alphabet are run with every failure kind at every position: caller error before each operation and after the last, operation rejected by the reference model (duplicate, missing target, restrict, unusable key), constraint veto for each of 6 stores x 3 change types, a child-store strategy refusing an update or delete that arrives through the parent (each child store), a failing pre-commit action alone / before / after / between succeeding ones / registering further actions / registered on the context before the call, and storage write k of N failing for EVERY k (fault points inserted into bbolt's write methods by the overlay); through Db.Update, nested Db.Update and Db.Batch; operations refused by input validation (blank id, wrong entity type, nil entity) and set elements too large to be stored (through parent, plain child and extended child) are part of the alphabet; vetoes, strategy refusals, caller errors and failing pre-commit actions are raised with an untyped error and with the library's own not-found error type. The failing store call and the transaction must return an error, the database must be byte-identical, and no listener, post-commit hook, commit action or tx-complete listener may run (all library goroutines are joined, no sleeps).",
             "Storage faults are injected at bbolt's Put/Delete/CreateBucket(IfNotExists)/DeleteBucket entry (pages/fsync are not modelled); Batch is sampled (10 ms per call); single caller.",
             "DESIGN.md §4 C07"),
     "C08": ("model_checking", E1,
             "base states from explicit-state BFS x transaction programs routed through parent / plain child / extended child store; multiset of delivered events vs reference event list; goroutines joined through the tracked-spawn overlay",
-            "Ten registration styles (typed, function, untyped, id-only, typed and untyped constraint; sync and async) x three change types on five stores record (store, style, type, id, observed state). For every base state and every 1-2 (thorough: 3) operation transaction - committed (also with two succeeding pre-commit actions), rolled back by a caller error, rejected by the model or by a failing pre-commit action (alone or followed by a succeeding one), via Update and Batch - the recorded multiset must equal the reference list derived from the model (one event per committed change with final/last state, one parent event per child change, none for undone work); commit actions and tx-complete listeners exactly once per committed transaction; when an id-only listener runs, a fresh read transaction must already show the state the transaction leaves behind ('after the commit').",
+            "Ten registration styles (typed, function, untyped, id-only, typed and untyped constraint; sync and async) x three change types on five stores record (store, style, type, id, observed state). For every base state and every 1-2 (thorough: 3) operation transaction - committed (also with two succeeding pre-commit actions), rolled back by a caller error, rejected by the model or by a failing pre-commit action (alone or followed by a succeeding one), via Update, Batch and a Batch whose first run fails transiently and whose solo re-run commits - the recorded multiset must equal the reference list derived from the model (one event per committed change with final/last state, one parent event per child change, none for undone work); commit actions and tx-complete listeners exactly once per committed transaction; when an id-only listener runs, a fresh read transaction must already show the state the transaction leaves behind ('after the commit').",
             "Events on the extended child store for entities without extended data are not specified and ignored; two concurrent Batch callers are outside the property.",
             "DESIGN.md §4 C08"),
     "C09": ("model_checking", E1,
@@ -155,7 +155,7 @@ def main():
         ],
         "checks": checks,
         "not_applicable": na,
-        "notes": "Every check rebuilds the harness against /repo's working tree (run.sh). Known findings and repaired defects: known_findings.json (the known list is empty; 27 fix: commits). Seeded changes: seeded/ (126, all detected at the quick tier); behaviour-preserving refactorings: refactors/ (8, no alarm); self-test: tools/selftest.py -> selftest/results.json.",
+        "notes": "Every check rebuilds the harness against /repo's working tree (run.sh). Known findings and repaired defects: known_findings.json (the known list is empty; 27 fix: commits). Seeded changes: seeded/ (136, all detected at the quick tier); behaviour-preserving refactorings: refactors/ (8, no alarm); self-test: tools/selftest.py -> selftest/results.json.",
     }
     with open(os.path.join(ROOT, "MANIFEST.json"), "w") as f:
         json.dump(m, f, indent=1)
